@@ -1,12 +1,7 @@
 SPECIFICATION GSpec
 CONSTANTS
-  Sizes <- SizesTS
-  NB = 64
-  Kind = "ts"
-  UnitMs = 500
-  Abs = FALSE
-  Times <- NoTimes
-  Deltas <- DeltasTS
+  Kinds = {"ts", "mh"}
+  Times = {}
   Start = 200000001
   ChkSet = {FALSE, TRUE}
   GenDepth = 24
